@@ -39,6 +39,10 @@ thread_local! {
     static PANIC_ON_CLONE: RefCell<Option<usize>> = RefCell::new(None);
     static CLONES: RefCell<usize> = RefCell::new(0);
     static USE_AFTER_DROP: RefCell<bool> = RefCell::new(false);
+    /// a `P` whose id no `mk()` handed out was dropped (a slot that was never written)
+    static FOREIGN_DROP: RefCell<bool> = RefCell::new(false);
+    /// message of an `assert!` that failed inside a case (recorded by the panic hook)
+    static ASSERTED: RefCell<Option<String>> = RefCell::new(None);
 }
 
 struct P(usize);
@@ -58,7 +62,14 @@ impl P {
 }
 impl Drop for P {
     fn drop(&mut self) {
-        DROPS.with(|d| d.borrow_mut()[self.0] += 1);
+        let known = DROPS.with(|d| {
+            let mut d = d.borrow_mut();
+            if self.0 < d.len() { d[self.0] += 1; true } else { false }
+        });
+        if !known {
+            FOREIGN_DROP.with(|u| *u.borrow_mut() = true);
+            return;
+        }
         let p = PANIC_ON_DROP.with(|p| *p.borrow());
         if p == Some(self.0) {
             PANIC_ON_DROP.with(|p| *p.borrow_mut() = None);
@@ -85,10 +96,14 @@ fn reset() {
     PANIC_ON_CLONE.with(|p| *p.borrow_mut() = None);
     CLONES.with(|c| *c.borrow_mut() = 0);
     USE_AFTER_DROP.with(|u| *u.borrow_mut() = false);
+    FOREIGN_DROP.with(|u| *u.borrow_mut() = false);
 }
 /// exactly_once: every created element dropped exactly once; otherwise at most once (leaks allowed: C05)
 fn verdict(exactly_once: bool) -> Option<String> {
     let d = DROPS.with(|d| d.borrow().clone());
+    if FOREIGN_DROP.with(|u| *u.borrow()) {
+        return Some(format!("a value that no expression produced was dropped (uninitialised slot); drops={:?}", d));
+    }
     if USE_AFTER_DROP.with(|u| *u.borrow()) {
         return Some(format!("element observed after it was dropped; drops={:?}", d));
     }
@@ -101,12 +116,23 @@ fn verdict(exactly_once: bool) -> Option<String> {
     None
 }
 
+/// the case about to run, for the driver: if the process dies (signal) the last marker names the failing input
+fn mark(prop: &str, name: &str, n: usize, k: usize) {
+    if let Ok(p) = std::env::var("STANDIN_MARK") {
+        let _ = std::fs::write(p, format!("property={} op={} N={} k={}", prop, name, n, k));
+    }
+}
+fn wanted(prop: &str) -> bool {
+    match std::env::var("STANDIN_ONLY") { Ok(v) => v.split(',').any(|x| x == prop), Err(_) => true }
+}
+
 struct Report {
     cases: usize,
     failed: usize,
 }
 impl Report {
     fn case(&mut self, prop: &str, name: &str, n: usize, k: usize, exactly_once: bool, f: impl FnOnce()) {
+        mark(prop, name, n, k);
         reset();
         DROPS.with(|d| d.borrow_mut().reserve(64)); // so that the ledger itself does not allocate inside the case
         let live0 = LIVE_BLOCKS.load(Ordering::SeqCst);
@@ -373,6 +399,171 @@ where
     }
 }
 
+
+/// C20 (bounded stand-in): a panic inside the k-th element expression of the list forms (an unwinding path), and the repeat
+/// forms with a Clone-but-not-Copy element.  Ledger: every value an expression produced is dropped exactly once, nothing else is.
+fn el(c: &mut usize, k: usize) -> P {
+    if *c == k {
+        panic!("injected element-expression panic");
+    }
+    *c += 1;
+    mk()
+}
+fn macro_cases(rep: &mut Report) {
+    use generic_array::{arr, box_arr};
+    for k in 0..=4usize {
+        rep.case("C20", "arr![e0]", 1, k, true, || { let mut c = 0; let _a = arr![el(&mut c, k)]; });
+        rep.case("C20", "arr![e0,e1,e2]", 3, k, true, || { let mut c = 0; let _a = arr![el(&mut c, k), el(&mut c, k), el(&mut c, k)]; });
+        rep.case("C20", "arr![e0,e1,e2,e3,]", 4, k, true, || { let mut c = 0; let _a = arr![el(&mut c, k), el(&mut c, k), el(&mut c, k), el(&mut c, k),]; });
+        rep.case("C20", "box_arr![e0]", 1, k, true, || { let mut c = 0; let _a = box_arr![el(&mut c, k)]; });
+        rep.case("C20", "box_arr![e0,e1,e2]", 3, k, true, || { let mut c = 0; let _a = box_arr![el(&mut c, k), el(&mut c, k), el(&mut c, k)]; });
+        rep.case("C20", "box_arr![e0,e1,e2,e3,]", 4, k, true, || { let mut c = 0; let _a = box_arr![el(&mut c, k), el(&mut c, k), el(&mut c, k), el(&mut c, k),]; });
+    }
+    // repeat forms, element Clone but not Copy: N distinct live values (x moved or cloned, never bit-copied), x evaluated once;
+    // k = index of the clone that panics (k >= N - 1: none)
+    macro_rules! rep_case { ($nm:expr, $n:expr, $e:expr) => {
+        for k in 0..=$n {
+            rep.case("C20", $nm, $n, k, true, || {
+                PANIC_ON_CLONE.with(|p| *p.borrow_mut() = Some(k));
+                let mut evals = 0usize;
+                let b = $e(&mut evals);
+                assert!(evals == 1, "C20: x evaluated {} times", evals);
+                let mut ids: Vec<usize> = b.iter().map(|p: &P| { p.touch(); p.0 }).collect();
+                ids.sort();
+                ids.dedup();
+                assert!(ids.len() == $n, "C20: {} distinct values in a box of {}", ids.len(), $n);
+            });
+            if let Some(why) = ASSERTED.with(|a| a.borrow_mut().take()) {
+                rep.failed += 1;
+                println!("FAIL property=C20 op={} N={} k={} : {}", $nm, $n, k, why);
+            }
+        }
+    } }
+    rep_case!("box_arr![x; U3] (Clone, not Copy)", 3usize, |ev: &mut usize| box_arr![{ *ev += 1; mk() }; U3]);
+    rep_case!("box_arr![x; 4] (Clone, not Copy)", 4usize, |ev: &mut usize| box_arr![{ *ev += 1; mk() }; 4]);
+    rep_case!("box_arr![x; U1] (Clone, not Copy)", 1usize, |ev: &mut usize| box_arr![{ *ev += 1; mk() }; U1]);
+    rep_case!("box_arr![x; U0] (Clone, not Copy)", 0usize, |ev: &mut usize| box_arr![{ *ev += 1; mk() }; U0]);
+}
+
+/// C14 (bounded stand-in): the chunked strategy (N > 1024) on the real code - CBMC cannot reach these lengths.  Every precision
+/// for two lengths, boundary precisions (multiples of 2048 +- 1, 2N +- 2) for the others; both cases; no precision.
+fn hex_case<N: ArrayLength>(rep: &mut Report, all_precisions: bool)
+where
+    N: core::ops::Add<N>,
+    Sum<N, N>: ArrayLength,
+{
+    let n = N::USIZE;
+    let a: GenericArray<u8, N> = GenericArray::generate(|i| (i.wrapping_mul(31).wrapping_add(7) ^ (i >> 8)) as u8);
+    let lower: String = a.iter().map(|b| format!("{:02x}", b)).collect();
+    let upper: String = a.iter().map(|b| format!("{:02X}", b)).collect();
+    let mut ps: Vec<usize> = if all_precisions { (0..=2 * n + 2).collect() } else {
+        let mut v = vec![0, 1, 2, 3, 2 * n - 1, 2 * n, 2 * n + 1, 2 * n + 2, 2 * n + 7, n, n + 1];
+        let mut m = 2048;
+        while m <= 2 * n + 2048 { v.extend([m - 2, m - 1, m, m + 1, m + 2]); m += 2048; }
+        v
+    };
+    ps.sort();
+    ps.dedup();
+    mark("C14", "hex", n, 0);
+    rep.cases += 1;
+    let mut bad: Option<String> = None;
+    if format!("{:x}", a) != lower || format!("{:X}", a) != upper {
+        bad = Some("no precision: not the two-digit form of every byte".into());
+    }
+    for &p in &ps {
+        let want = p.min(2 * n);
+        let (l, u) = (format!("{:.*x}", p, a), format!("{:.*X}", p, a));
+        if l != lower[..want] || u != upper[..want] {
+            bad = Some(format!("precision {}: printed {} / {} characters, expected the first {} of the full form", p, l.len(), u.len(), want));
+            break;
+        }
+    }
+    if let Some(why) = bad {
+        rep.failed += 1;
+        println!("FAIL property=C14 op=LowerHex/UpperHex N={} k=0 : {}", n, why);
+    }
+}
+
+/// C02 / C10 / C11 (bounded stand-in): the ADDRESS of views whose extent is zero bytes (zero-sized elements, N = 0, M = 0).
+/// CBMC gives zero-sized places unrelated addresses, so engine K guards every address assertion with "size != 0".
+#[repr(align(8))]
+#[derive(Clone, Copy, Default)]
+struct Z8;
+fn adr<X: ?Sized>(x: &X) -> usize { x as *const X as *const u8 as usize }
+fn zero_extent(rep: &mut Report) {
+    use core::borrow::{Borrow, BorrowMut};
+    let fails: RefCell<Vec<(&str, String)>> = RefCell::new(Vec::new());
+    let ncases = std::cell::Cell::new(0usize);
+    macro_rules! chk { ($prop:expr, $what:expr, $a:expr, $b:expr) => { ncases.set(ncases.get() + 1); if $a != $b { fails.borrow_mut().push(($prop, format!("{}: address {:#x} instead of {:#x}", $what, $a, $b))); } } }
+    macro_rules! guarded { ($prop:expr, $what:expr, $body:block) => {
+        if catch_unwind(AssertUnwindSafe(|| $body)).is_err() { rep.cases += 1; fails.borrow_mut().push(($prop, format!("{}: the call panicked", $what))); }
+    } }
+    macro_rules! views { ($T:ty, $N:ty, $v:expr) => { guarded!("C02", "views of a zero-extent array", {
+        mark("C02", "views of a zero-extent array", <$N>::USIZE, 0);
+        let mut a: GenericArray<$T, $N> = GenericArray::generate(|_| $v);
+        let base = adr(&a);
+        chk!("C02", "as_slice", a.as_slice().as_ptr() as usize, base);
+        chk!("C02", "as_mut_slice", a.as_mut_slice().as_ptr() as usize, base);
+        chk!("C02", "Deref", (&*a).as_ptr() as usize, base);
+        chk!("C02", "AsRef<[T]>", AsRef::<[$T]>::as_ref(&a).as_ptr() as usize, base);
+        chk!("C02", "Borrow<[T]>", Borrow::<[$T]>::borrow(&a).as_ptr() as usize, base);
+        chk!("C02", "BorrowMut<[T]>", BorrowMut::<[$T]>::borrow_mut(&mut a).as_ptr() as usize, base);
+        chk!("C02", "(&a).into_iter()", (&a).into_iter().as_slice().as_ptr() as usize, base);
+        let mut backing = [$v; 7];
+        let off = 2usize;
+        let src = adr(&backing[off..off + <$N>::USIZE]);
+        chk!("C02", "from_slice", adr(GenericArray::<$T, $N>::from_slice(&backing[off..off + <$N>::USIZE])), src);
+        chk!("C02", "try_from_slice", adr(GenericArray::<$T, $N>::try_from_slice(&backing[off..off + <$N>::USIZE]).unwrap()), src);
+        chk!("C02", "from_mut_slice", adr(GenericArray::<$T, $N>::from_mut_slice(&mut backing[off..off + <$N>::USIZE])), src);
+        chk!("C02", "try_from_mut_slice", adr(GenericArray::<$T, $N>::try_from_mut_slice(&mut backing[off..off + <$N>::USIZE]).unwrap()), src);
+        chk!("C02", "TryFrom<&[T]>", adr(<&GenericArray<$T, $N>>::try_from(&backing[off..off + <$N>::USIZE]).unwrap()), src);
+    }) } }
+    views!((), U3, ());
+    views!((), U0, ());
+    views!(Z8, U2, Z8);
+    views!(u32, U0, 5u32);
+    views!([u8; 0], U3, []);
+    macro_rules! chunks { ($T:ty, $N:ty, $n:expr, $v:expr) => { guarded!("C10", "from_chunks / into_chunks of zero-extent chunks", {
+        mark("C10", "from_chunks / into_chunks of zero-extent chunks", $n, 0);
+        let mut native: [[$T; $n]; 3] = [[$v; $n]; 3];
+        let base = adr(&native);
+        chk!("C10", "from_chunks", adr(GenericArray::<$T, $N>::from_chunks(&native[..])), base);
+        chk!("C10", "from_chunks_mut", adr(GenericArray::<$T, $N>::from_chunks_mut(&mut native[..])), base);
+        ncases.set(ncases.get() + 1);
+        if GenericArray::<$T, $N>::from_chunks(&native[..]).len() != 3 { fails.borrow_mut().push(("C10", "from_chunks: count".into())); }
+        let mut ga: [GenericArray<$T, $N>; 3] = [GenericArray::generate(|_| $v), GenericArray::generate(|_| $v), GenericArray::generate(|_| $v)];
+        let gbase = adr(&ga);
+        chk!("C10", "into_chunks", adr(GenericArray::<$T, $N>::into_chunks::<$n>(&ga[..])), gbase);
+        chk!("C10", "into_chunks_mut", adr(GenericArray::<$T, $N>::into_chunks_mut::<$n>(&mut ga[..])), gbase);
+        ncases.set(ncases.get() + 1);
+        if GenericArray::<$T, $N>::into_chunks::<$n>(&ga[..]).len() != 3 { fails.borrow_mut().push(("C10", "into_chunks: count".into())); }
+    }) } }
+    chunks!((), U2, 2, ());
+    chunks!(Z8, U3, 3, Z8);
+    chunks!(u32, U0, 0, 1u32);
+    macro_rules! flat { ($T:ty, $N:ty, $M:ty, $NM:ty, $v:expr) => { guarded!("C11", "by-reference flatten / unflatten of a zero-extent array", {
+        mark("C11", "by-reference flatten / unflatten of a zero-extent array", <$NM>::USIZE, 0);
+        let mut nested: GenericArray<GenericArray<$T, $N>, $M> = GenericArray::generate(|_| GenericArray::generate(|_| $v));
+        let base = adr(&nested);
+        chk!("C11", "(&nested).flatten()", adr::<GenericArray<$T, $NM>>((&nested).flatten()), base);
+        chk!("C11", "(&mut nested).flatten()", adr::<GenericArray<$T, $NM>>((&mut nested).flatten()), base);
+        let mut flat: GenericArray<$T, $NM> = GenericArray::generate(|_| $v);
+        let fbase = adr(&flat);
+        chk!("C11", "(&flat).unflatten()", adr::<GenericArray<GenericArray<$T, $N>, $M>>((&flat).unflatten()), fbase);
+        chk!("C11", "(&mut flat).unflatten()", adr::<GenericArray<GenericArray<$T, $N>, $M>>((&mut flat).unflatten()), fbase);
+    }) } }
+    flat!((), U2, U3, U6, ());
+    flat!(Z8, U3, U2, U6, Z8);
+    flat!(u32, U2, U0, U0, 3u32);
+    flat!(u8, U3, U0, U0, 3u8);
+    rep.cases += ncases.get();
+    for (prop, why) in fails.into_inner() {
+        rep.failed += 1;
+        let what = why.split(':').next().unwrap_or("").replace(' ', "_");
+        println!("FAIL property={} op=zero-extent-view({}) N=0 k=0 : {}", prop, what, why);
+    }
+}
+
 /// C15 (bounded stand-in): the boxed constructors and the O(1) conversions handle an array far larger than the thread's
 /// stack.  Each case runs on a 256 KiB-stack thread of a re-executed child process (a stack overflow kills the child,
 /// not the report).  4 MiB of u8.
@@ -405,8 +596,28 @@ fn main() {
         stack_case(args[2].parse().unwrap());
         return;
     }
-    std::panic::set_hook(Box::new(|_| {}));
+    std::panic::set_hook(Box::new(|info| {
+        let msg = info.payload().downcast_ref::<String>().cloned().or_else(|| info.payload().downcast_ref::<&str>().map(|s| s.to_string())).unwrap_or_default();
+        if msg.starts_with("C20:") {
+            ASSERTED.with(|a| *a.borrow_mut() = Some(msg));
+        }
+    }));
     let mut rep = Report { cases: 0, failed: 0 };
+    if wanted("C20") { macro_cases(&mut rep); }
+    if wanted("C14") {
+        hex_case::<Add1<U1024>>(&mut rep, true);
+        hex_case::<Add1<U2048>>(&mut rep, true);
+        hex_case::<Sub1<U2048>>(&mut rep, false);
+        hex_case::<U2048>(&mut rep, false);
+        hex_case::<Prod<U1000, U3>>(&mut rep, false);
+        hex_case::<U4096>(&mut rep, false);
+        hex_case::<U1024>(&mut rep, false);
+    }
+    if wanted("C02") || wanted("C10") || wanted("C11") { zero_extent(&mut rep); }
+    if !(wanted("C04") || wanted("C05") || wanted("C09") || wanted("C15") || wanted("C16")) {
+        println!("CASES {} FAILED {}", rep.cases, rep.failed);
+        return;
+    }
     closure_panics::<U0>(&mut rep);
     closure_panics::<U1>(&mut rep);
     closure_panics::<U2>(&mut rep);
